@@ -118,6 +118,33 @@ async def make_context(loop, site=None, server=None):
     return ctx, net
 
 
+async def make_server_context_multi(loop, site, n):
+    """A server context bound to `n` addresses (what `bind=` with a host name resolving to several addresses, or a
+    list of them, gives): the real `create_server_context` is handed `n` endpoints, each on a fake socket of its own.
+    Returns (ctx, [net, ...])."""
+    import aiocoap
+    from aiocoap.transports import udp6
+    from aiocoap.util.asyncio.recvmsg import create_recvmsg_datagram_endpoint
+
+    nets = [Net(loop) for _ in range(n)]
+
+    async def fake_prepare(cls, *, params, log, loop):
+        for net in nets:
+            transport, protocol = await create_recvmsg_datagram_endpoint(
+                loop, lambda: cls(bind=("::", 0, 0, 0), log=log, loop=loop), sock=net.sock)
+            await protocol.ready
+            net.mint = protocol
+            yield protocol
+
+    orig = udp6.MessageInterfaceUDP6.__dict__["prepare_transport_endpoints"]
+    udp6.MessageInterfaceUDP6.prepare_transport_endpoints = classmethod(fake_prepare)
+    try:
+        ctx = await aiocoap.Context.create_server_context(site, transports=["udp6"], loop=loop)
+    finally:
+        udp6.MessageInterfaceUDP6.prepare_transport_endpoints = orig
+    return ctx, nets
+
+
 def remote_for(net, src):
     """UDP6EndpointAddress for a peer sockaddr, bound to this context's interface."""
     from aiocoap.transports.udp6 import UDP6EndpointAddress
